@@ -1,4 +1,5 @@
 import Efp.Model.JsonModel
+import Efp.Theory.Checker
 import Mathlib.Algebra.Order.Field.Basic
 import Mathlib.Algebra.Order.Field.Rat
 import Mathlib.Tactic.Positivity
@@ -10,6 +11,10 @@ import Mathlib.Tactic.Linarith
 Theorems over Model E (`Efp.JsonModel`).  "Loses nothing" is: `decode (encode m) = m` up to the
 documented 3-decimal rounding of hourly inputs; re-export gives the same JSON because that
 rounding is idempotent; every object reachable from the system is written.
+"Recomputed results equal the original's" and "the loaded system is live": the loader discards any
+saved calculated value and recomputes everything from the decoded inputs (`json_to_system` ends with
+`system.after_init()`), so the loaded state is *the* consistent state of those inputs
+(`loaded_results_equal_original`), on which edits behave as on any consistent state (C01).
 -/
 namespace Efp.Props.C13
 open Efp Efp.JsonModel
@@ -199,6 +204,25 @@ def demo : Model :=
 example : collect demo 10 "sys" = (["sys", "up"], true) := by decide +kernel
 example : decode (demo.map encodeObj) = demo.map round3Obj := by decide +kernel
 example : round3 ((12345 : Rat) / 10000) = (617 : Rat) / 500 := by decide +kernel
+
+/-- **the loaded system has the original's results**: the original (consistent) state and the state the
+loader computes by a full pass over the calculated attributes, from any starting values, agree
+everywhere as soon as they agree on the inputs — for every rule system with well-founded reads -/
+theorem loaded_results_equal_original {V : Type} (S : Efp.Theory.RuleSys Nat V) (rk : Nat → Nat)
+    (wf : ∀ n, S.isCalc n = true → ∀ m ∈ S.reads n, rk m < rk n)
+    (original : Nat → V) (horig : Efp.Theory.Consistent S original)
+    (order : List Nat) (start : Nat → V)
+    (hnd : order.Nodup) (hall : ∀ n, S.isCalc n = true → n ∈ order) (honly : ∀ n ∈ order, S.isCalc n = true)
+    (hord : ∀ l₁ n l₂, order = l₁ ++ n :: l₂ → ∀ m ∈ S.reads n, m ∉ l₂ ∧ m ≠ n)
+    (hinputs : ∀ n, S.isCalc n = false → start n = original n) :
+    Efp.Theory.run S start order = original := by
+  have c := Efp.Theory.full_pass_consistent S order start hnd hall hord
+  funext n
+  apply Efp.Theory.consistent_unique S rk wf _ _ c horig
+  intro m hm
+  have h1 : m ∉ order := fun h => by rw [honly m h] at hm; cases hm
+  rw [Efp.Theory.run_not_mem S order start m h1]
+  exact hinputs m hm
 
 /-- the hypothesis of `decode_encode` is needed: an object whose *name* equals the id of another
 exported object is loaded with a link in place of its name (replayed on the real code: finding D19) -/
